@@ -29,11 +29,14 @@ class ParsingState:
 
     """
 
-    __slots__ = ['continuations']
+    __slots__ = ['continuations', 'assigned']
 
     def __init__(self, *, continuations: Sequence[memoryview] = ()) -> None:
         super().__init__()
         self.continuations: Final = iter(continuations or ())
+
+        #: The continuations already handed out, by the buffer that asked.
+        self.assigned: Final[dict[int, memoryview]] = {}
 
 
 class ParsingInterrupt(Exception):
@@ -97,15 +100,27 @@ class ExpectContinuation(ParsingExpectation[memoryview]):
         message: The message from the server.
         literal_length: If the continuation is for a string literal, this
             is the byte length to expect.
+        source: The buffer object that ends with the string literal.
 
     """
 
-    __slots__ = ['message', 'literal_length']
+    __slots__ = ['message', 'literal_length', 'source']
 
-    def __init__(self, message: bytes, literal_length: int = 0) -> None:
+    def __init__(self, message: bytes, literal_length: int = 0,
+                 source: object = None) -> None:
         super().__init__()
         self.message: Final = message
         self.literal_length: Final = literal_length
+        self.source: Final = source
 
     def consume(self, state: ParsingState) -> memoryview | None:
-        return next(state.continuations, None)
+        # a buffer ends in at most one literal that needs a continuation:
+        # when parsing backtracks and reaches it again it gets the same
+        # continuation, not the next one
+        key = None if self.source is None else id(self.source)
+        if key is not None and key in state.assigned:
+            return state.assigned[key]
+        ret = next(state.continuations, None)
+        if ret is not None and key is not None:
+            state.assigned[key] = ret
+        return ret
